@@ -52,6 +52,13 @@ def gen_tasks(tier, seed):
             tasks.append({**base, "wt": "int", "eps": rng.choice([0.1, 1])})
             nf = {v: rng.choice((0, 1, 2, 3)) for v in G.nodes()}
             tasks.append({**base, "wt": "int", "edges": es, "node_flow": nf, "node_mode": True})
+            # node-weighted with additional starts / ends (structured values: the end node's own value differs from its neighbours')
+            if inner:
+                for v_ in (inner if rep == 0 else inner[:1]):
+                    nf2 = {x: (4 if x == v_ else 10 if x in G.predecessors(v_) else 4) for x in G.nodes()}
+                    tasks.append({**base, "wt": "int", "edges": es, "node_flow": nf2, "node_mode": True, "ends": [v_]})
+                    tasks.append({**base, "wt": "int", "edges": es, "node_flow": {x: (4 if x == v_ else 10 if x in G.successors(v_) else 4) for x in G.nodes()}, "node_mode": True, "starts": [v_]})
+                    tasks.append({**base, "wt": "float", "edges": es, "node_flow": nf, "node_mode": True, "starts": [v_], "ends": [rng.choice(inner)]})
     for i, t in enumerate(tasks):
         t["tid"] = i
     return tasks
